@@ -445,6 +445,8 @@ def r8_send_wait_loop_progress(ck, cx):
 def run(ck, tier):
     cx = Ctx()
     ck.guard(r8_send_wait_loop_progress, ck, cx)
+    from .c08 import r9_receive_accumulator_is_local
+    ck.guard(r9_receive_accumulator_is_local, ck, cx, 'R9')
     ck.guard(r7_fixed_time_budget, ck, cx)
     ck.guard(r5_serial_flush, ck, cx)
     ck.guard(r6_short_first_read_is_a_fault, ck, cx)
